@@ -446,3 +446,16 @@ Definition clone_world (h : heap) (p : pobj) : world :=
   let (h', c) := hclone h p in {| w_heap := h'; w_p := p; w_c := c |}.
 (* the same operation applied to both *)
 Definition both (ops : list op) : list (side * op) := flat_map (fun o => [(SOrig, o); (SClone, o)]) ops.
+
+(* ------------------------------------------------------------------ HierarchicalProblem: methods (open finding) *)
+(* HierarchicalProblem.clone = the Problem part above +  new_p._methods = self._methods.copy()  (a NEW dict holding the
+   SAME Method objects) + the task network's subtask list copied shallowly.  A Method's subtasks hold references to Action
+   OBJECTS.  Modelled: the methods dict is a CRefs cell (method name -> address of the Method object); a Method object is
+   a CRefs cell (subtask identifier -> address of the Action object it refers to). *)
+Record hobj := { h_prob : pobj; h_methods : nat }.
+(* what the methods of a hierarchical problem look like: for each method, for each subtask, the action it runs *)
+Definition methods_view (h : heap) (a : nat) : list (N * list (N * cell)) :=
+  map (fun ma => (fst ma, abs_refs h (refs (rd h (snd ma))))) (refs (rd h a)).
+Definition hclone_htn (h : heap) (hp : hobj) : heap * hobj :=
+  let (h1, c) := hclone h (h_prob hp) in
+  (h1 ++ [CRefs (refs (rd h1 (h_methods hp)))], {| h_prob := c; h_methods := length h1 |}).
